@@ -119,6 +119,7 @@ def check(cls, case, rec):
     kwargs = {"tol": 1e-9}
     if case["x0"]:
         kwargs["x0"] = fc
+    ended = False
     for si, stp in enumerate(case["steps"]):
         vals = [scale * v for v in stp["ramp"]]
         fail_at = stp["fail_at"]
@@ -169,6 +170,12 @@ def check(cls, case, rec):
             if "x0" in kwargs:
                 kwargs["x0"].link(res.x)  # what Job.evaluate does after each completed substep
             F = res.x.extract()[0]
+            if float(np.linalg.det(np.moveaxis(np.asarray(F), (0, 1), (-2, -1))).min()) <= 0.05:
+                # a large generated jump "converged" to a state with inverted cells (models without a volumetric barrier
+                # accept det F < 0): outside the material models' domain, the history ends here
+                rec.label("inverted-state-history-ends")
+                ended = True
+                break
             if has_state:
                 sv = np.asarray(body.results.statevars, float)
                 um = body.umat
@@ -206,6 +213,8 @@ def check(cls, case, rec):
                         rec.label("plastic-flow")
                     alpha_prev = alpha.copy()
                 committed = sv.copy()
+        if ended:
+            break
         if raised and (fail_at is None or nyield < fail_at):
             # a generated jump may legitimately fail to converge: the failure invariants above apply, the history ends here
             rec.label("natural-failure")
@@ -222,7 +231,7 @@ def check(cls, case, rec):
         rec.label("reversal-or-repeat")
     rec.label(f"yields={min(yielded_total, 10)}")
     # ---- elastic: the final state does not depend on the subdivision of the load path
-    if cls in ("elastic", "mixed") and not injected and yielded_total > 0:
+    if cls in ("elastic", "mixed") and not injected and not ended and yielded_total > 0:
         end = last_value
         mesh2, region2, fc2, items2, body2, base2, _ = setup(cls, case, fem)
         b2, _ = fem.dof.uniaxial(fc2, clamped=True, move=0.0)
@@ -236,7 +245,13 @@ def check(cls, case, rec):
             return
         a = np.concatenate([f.values.ravel() for f in out[-1].x.fields])
         b = np.concatenate([f.values.ravel() for f in items[0].field.fields])
-        rec.close("final-state-independent-of-subdivision", float(np.abs(a - b).max()) / max(float(np.abs(b).max()), 1e-9), 1e-6)
+        Jmin = min(float(np.linalg.det(np.moveaxis(np.asarray(c_.extract()[0]), (0, 1), (-2, -1))).min()) for c_ in (out[-1].x, items[0].field))
+        if Jmin <= 0.05:
+            rec.label("subdivision-run-reached-an-inverted-state")  # another (non-physical) equilibrium of a large jump
+            return
+        # relative to the largest displacement of the history (the final state may be the unloaded one, ~0)
+        umax = max([abs(v) for s_ in case["steps"] for v in s_["ramp"]] + [float(np.abs(b).max()), 1e-9]) * scale
+        rec.close("final-state-independent-of-subdivision", float(np.abs(a - b).max()) / umax, 1e-6)
 
 
 # ---------------------------------------------------------------------------------------------------------------
